@@ -140,11 +140,11 @@ type event struct {
 }
 
 func script(p Plan, out *vk.Outcome) error {
-	parent, parentCancel := context.WithCancel(context.Background())
+	parent, parentCancel := sk.WithCancel(context.Background())
 	defer parentCancel()
 	if p.StopKind == "ParentDeadline" { // the parent context ends by deadline exactly at the stop time
 		var c2 context.CancelFunc
-		parent, c2 = context.WithTimeout(parent, time.Duration(p.StopAt)*time.Millisecond)
+		parent, c2 = sk.WithTimeout(parent, time.Duration(p.StopAt)*time.Millisecond)
 		defer c2()
 	}
 	g := xsync.NewGroup(parent)
@@ -453,7 +453,7 @@ func runStorm(p StormPlan) (out vk.Outcome, verr error) {
 				}
 			}()
 			for round := 0; round < p.Rounds && verr == nil; round++ {
-				parent, parentCancel := context.WithCancel(context.Background())
+				parent, parentCancel := sk.WithCancel(context.Background())
 				g := xsync.NewGroup(parent)
 				var mu sync.Mutex
 				var stopReturned int64
